@@ -33,6 +33,10 @@ def run(ctx):
     ctx.rule('C09.PAIRS', lambda: c08.rule_add(ctx) + c08.rule_remove(ctx), 8)
     from .unbound import rule_unbound
     ctx.rule('C09.UNBOUND', lambda: rule_unbound(ctx, 'C09.UNBOUND', ('mp',)), 20)
+    from . import c03 as _c03
+    ctx.rule('C09.MEMO', lambda: _c03.rule_memo(ctx, 'C09.MEMO'), 12)
+    from . import c07 as _c07
+    ctx.rule('C09.CLAMP', lambda: _c07.rule_hsub_clamp(ctx, 'C09.CLAMP'), 1)
     ctx.rule('C09.LOOPONLY', lambda: rule_looponly(ctx), 2)
     ctx.rule('C09.HANDOVER', lambda: rule_refresh_handover(ctx), 3)
     ctx.rule('C09.ITER', lambda: rule_iter(ctx), 3)
